@@ -20,6 +20,7 @@ META = {
         "by-reference parameters do not alias",
     ],
 }
+META["explanation"] += " " + '(PROG) the same progress rule as C05 over the template scanner, attribute parsers, expression scanner, finder, string utilities and number formatter/scanner loops; the tag loops driven by finder.GetMatch(), pointer-walking loops over tag arrays and the loop-item growth loop are listed as not decided.'
 
 ZONE_KEYS = [
     "Qentem::Finder::Next", "Qentem::TemplateCore::parse", "Qentem::TemplateCore::parseLoopAttributes",
@@ -55,6 +56,8 @@ def run(ctx):
     rules["TS-tagbit"] = tagbit_access(ctx, m)
     rules["IDX-ensure"] = loop_item_index(ctx, m)
     rules["SB-loopitem"] = loop_item_fields(ctx, m)
+    from rules.progress import rule_progress
+    rules["PROG"] = rule_progress(ctx, m, CONTRACTS, ["Template.hpp", "Finder.hpp", "StringUtils.hpp", "Digit.hpp", "QExpression.hpp", "Tags.hpp"], floor=55)
     return list(rules.values())
 
 
